@@ -1664,7 +1664,7 @@ func c04OutWitness(c *Case, r *Run, table bool) {
 }
 
 func runC04(r *Run) {
-	r.Rule = "part 1: the real CalculateDelay (8 initial delays x retry counts 0..40, repeated) and the queue's default ExponentialBackoffFn: every observed delay must be a member of the model's set {calcDelay k r | r < 1000}; oracle: initial <= delay <= 32s. part 2: the real operator (NewShellOperator + real metric storages + kube-client/fake + real hook manager, kube events manager, events handler and queues) with 1..3 generated bash hooks (onStartup, 1..3 schedule bindings, in 60% of the cases 1..3 kubernetes bindings on ConfigMaps, each with allowFailure/group, kubernetes ones with executeHookOnSynchronization; queue main or q1) whose every execution blocks at a gate until the harness lets it finish as scripted (ok / exit 1 / unparsable metrics file / unparsable patch file / metric operation that fails validation / patch operation that cannot be applied); startup runs onStartup and Synchronization tasks; then schedule events are fired through ScheduleManager.Ch() and kubernetes events by creating objects in the fake cluster while a run is blocked, so queue layouts of 1..6 tasks (+ up to 4 arriving during runs) with mixed allowFailure values are in the queue when the head is handled; back-off shortened through ExponentialBackoffFn (15..30 ms + 5 ms*failureCount, or the real CalculateDelay for the first failure). Observation per run (taken inside a wrapper of the queue's Handler field and from the hook): queue at handler entry, contexts in the hook's context file, queue at handler return, failure counter, back-off returned, time from the back-off call to the next handler entry. 60% of the failing and half of the successful executions leave GENERATED output files behind (exit code, text of the metrics file, text of the patch file: 1..3 valid metric operations / 1..2 valid patch specs in varied spelling, damaged by one of: truncated, stray closer }/] before the first / between two / after the last document, trailing garbage, wrong type of a field, top level not an object, separator between documents, bad token, operation failing validation, unknown field, patch that cannot be applied, non-zero exit with good files); for these runs the lines carry exit code and file texts and the Lean driver decides from the texts whether the run failed. Fourth wave dimensions: 45% of the v1 hooks have bindings that SHARE A NAME (no name: line = default name of the kind, or one explicit name; ungrouped kubernetes bindings too, also across kinds); 18% of the generated failing outputs end with the hook process TERMINATED BY A SIGNAL (16 signals, after the files are written; exit=sig<n> on the lines), exit codes 1 2 3 64 126 127 128 130 137 143 254 255; in half of the cases the public CancelTaskDelay() of the queue is called 1..2 times in 35% of the runs WHILE THE HOOK IS BLOCKED (worker inside the handler, no wait in progress; cancel line: flags read through VerifWaitFlags) — the back-off of a failure of that run must still last its length (oracle begin). Fifth wave dimensions: every hook execution COPIES THE CONTEXT FILE IT RECEIVED; the oracle lines carry per context what it held (pay=<watch event, object+filterResult>/<objects>/<snapshots entries>, interned canonical JSON) and oracle begin compares the retry of a failed run with the failed run itself (Event members identical, objects / snapshot entries a superset, every ungrouped Event context as often); ungrouped schedule (50%) / kubernetes (40%) bindings get includeSnapshotsFrom (subset of the unambiguously named kubernetes bindings of the hook), half of the kubernetes bindings a jqFilter, in half of the cases with kubernetes bindings 1..2 objects per binding exist before the operator starts. part 3: generated and corpus texts through MetricOperationsFromBytes+ValidateOperations and ParseOperations alone, compared with the model's verdict. Non-trivial: >= 2 tasks in the layouts. distinct = distinct op-line sequences."
+	r.Rule = "part 1: the real CalculateDelay (8 initial delays x retry counts 0..40, repeated) and the queue's default ExponentialBackoffFn: every observed delay must be a member of the model's set {calcDelay k r | r < 1000}; oracle: initial <= delay <= 32s. part 2: the real operator (NewShellOperator + real metric storages + kube-client/fake + real hook manager, kube events manager, events handler and queues) with 1..3 generated bash hooks (onStartup, 1..3 schedule bindings, in 60% of the cases 1..3 kubernetes bindings on ConfigMaps, each with allowFailure/group, kubernetes ones with executeHookOnSynchronization; queue main or q1) whose every execution blocks at a gate until the harness lets it finish as scripted (ok / exit 1 / unparsable metrics file / unparsable patch file / metric operation that fails validation / patch operation that cannot be applied); startup runs onStartup and Synchronization tasks; then schedule events are fired through ScheduleManager.Ch() and kubernetes events by creating objects in the fake cluster while a run is blocked, so queue layouts of 1..6 tasks (+ up to 4 arriving during runs) with mixed allowFailure values are in the queue when the head is handled; back-off shortened through ExponentialBackoffFn (15..30 ms + 5 ms*failureCount, or the real CalculateDelay for the first failure). Observation per run (taken inside a wrapper of the queue's Handler field and from the hook): queue at handler entry, contexts in the hook's context file, queue at handler return, failure counter, back-off returned, time from the back-off call to the next handler entry. 60% of the failing and half of the successful executions leave GENERATED output files behind (exit code, text of the metrics file, text of the patch file: 1..3 valid metric operations / 1..2 valid patch specs in varied spelling, damaged by one of: truncated, stray closer }/] before the first / between two / after the last document, trailing garbage, wrong type of a field, top level not an object, separator between documents, bad token, operation failing validation, unknown field, patch that cannot be applied, non-zero exit with good files); for these runs the lines carry exit code and file texts and the Lean driver decides from the texts whether the run failed. Fourth wave dimensions: 45% of the v1 hooks have bindings that SHARE A NAME (no name: line = default name of the kind, or one explicit name; ungrouped kubernetes bindings too, also across kinds); 18% of the generated failing outputs end with the hook process TERMINATED BY A SIGNAL (16 signals, after the files are written; exit=sig<n> on the lines), exit codes 1 2 3 64 126 127 128 130 137 143 254 255; in half of the cases the public CancelTaskDelay() of the queue is called 1..2 times in 35% of the runs WHILE THE HOOK IS BLOCKED (worker inside the handler, no wait in progress; cancel line: flags read through VerifWaitFlags) — the back-off of a failure of that run must still last its length (oracle begin). Fifth wave dimensions: every hook execution COPIES THE CONTEXT FILE IT RECEIVED; the oracle lines carry per context what it held (pay=<watch event, object+filterResult>/<objects>/<snapshots entries>, interned canonical JSON) and oracle begin compares the retry of a failed run with the failed run itself (Event members identical, objects / snapshot entries a superset, every ungrouped Event context as often); ungrouped schedule (50%) / kubernetes (40%) bindings get includeSnapshotsFrom (subset of the unambiguously named kubernetes bindings of the hook), half of the kubernetes bindings a jqFilter, in half of the cases with kubernetes bindings 1..2 objects per binding exist before the operator starts. Sixth wave dimensions: metric operations drawn from the CROSS PRODUCT group x action (set/add/observe/expire/none/unknown/wrong case) x name x value x buckets x set/add shortcuts, every member spelled legally (3 of 12 spellings of the valid documents; damage shape validation-table = an unsupported combination among good documents); after every run with a generated output the harness looks for the EFFECT of every operation of the metrics file in the registry of the operator's HookMetricStorage (Gather: a series of its name with the hook's label; expire = absence) and states unapplied=<n> on oracle end — operations without effect while the task of a binding that does not allow failure left the queue is a violation, whatever the model says about the text. part 3: generated and corpus texts through MetricOperationsFromBytes+ValidateOperations and ParseOperations alone, compared with the model's verdict. Non-trivial: >= 2 tasks in the layouts. distinct = distinct op-line sequences."
 	r.CaseTimeout = 300 * time.Second
 	r.One(0, func(c *Case, _ *Rng) { c04Delays(c, r) })
 	r.One(1, func(c *Case, _ *Rng) {
